@@ -4,12 +4,30 @@
 package main
 
 import (
+	"os"
+
 	"verifharness/vlib"
 	"verifharness/vlib/c18rdma"
 )
 
 func main() {
+	var replayData []byte
+	replaying := false
+	for i, a := range os.Args {
+		if a == "--replay" && i+1 < len(os.Args) {
+			replaying = true
+			replayData, _ = os.ReadFile(os.Args[i+1]) // before Start removes stale replays
+		}
+	}
 	c := vlib.Start("C18")
+	{
+		if replaying {
+			if !c18rdma.Replay(c, replayData) {
+				c.Inconclusive("replay file holds no scenario this worker can re-execute")
+			}
+			c.Finish(vlib.FinishOpts{Rule: "replay of one recorded scenario"})
+		}
+	}
 	c18rdma.Run(c, c.Rand("rdma"), c.N(1200, 40000))
 	c.Finish(vlib.FinishOpts{
 		Rule: "RDMA scenario = (2-4 real rdma.Comp engines on one outside connection, buffer sizes, per-cycle widths, 1-2 L1 requesters and " +
